@@ -32,6 +32,12 @@ CHECKS = {
     "C09": dict(engine="E3+E1", level="model_checking", technique="explicit-state BFS over the reachable states of the real RateLimit under a virtual clock + admission-before-request invariant on explored request logs",
                 text="For every set of 1..2 (quick) / 1..3 (thorough) limits over n in {1,2,3,5,20} x period in {1,2,3,5,10 s}: BFS over arrival-gap histories to depth 6 / 10 or fixpoint, states deduplicated by the ages in the limiter's own query log; window oracle (never n+1 admissions within a period) and progress oracle on every admission sequence. Every request of a bound-1 fault exploration and of account-update / key-change / binding flows must be preceded by an admission, and admission instants of 1..3 certificates contending for one endpoint satisfy the windows.",
                 note="Instants are read at the limiter on the virtual clock, not on the wire.", ref="4/C09"),
+    "C11": dict(engine="E3+E4", level="model_checking", technique="explicit-state BFS over histories of configuration edits, restarts, renewals and CA forgetfulness, re-executed on the real daemon and deduplicated by a canonical state key; exhaustive truncation sweep of account files",
+                text="Histories over {renew on A/B(/C), edit contacts, change key type, change both, next external binding, restart, CA forgets the account} to depth 4 (quick, 2 endpoints, 2 key types) / 6 (thorough, 3 endpoints, 3 key types): invariants on every renewal transition (registration only when no URL / CA says unknown / binding changed; after success the CA's record equals the configuration; one update per item; every account request verifies under the key the CA holds; renewals never fail against a conforming CA). 350+ account shapes saved and loaded back; every truncation point (40 000+) of account files must be refused and left untouched.",
+                note="State merging argument in DESIGN.md 4/C11; the CA's record per phase is reconstructed from the common event log.", ref="4/C11"),
+    "C12": dict(engine="E2", level="model_checking", technique="controlled scheduling of the real request_certificate futures: exhaustive deviation-bounded enumeration of interleavings at lock acquisitions and held CA responses, with a writer-preferring lock model",
+                text="2..3 certificates sharing accounts and endpoints in 9 scenarios (quick) + every sharing pattern of 3 certificates over 2 accounts x 2 endpoints (thorough); all schedules with <= 2 (quick) / <= 3 (thorough) departures from run-to-completion for two tasks, <= 1 / <= 2 for three. Oracles: no deadlock (no enabled task while one is unfinished), every task finishes and succeeds, newAccount per key and endpoint <= 1 + accountDoesNotExist answers, no nonce consumed twice (CA ledger), all JWS checks.",
+                note="The lock wrapper uses async-lock's try_read/try_write and guards; waiting and writer preference (an announced writer blocks new readers) are modelled by the scheduler, which explores every acquisition order.", ref="4/C12"),
     "C13": dict(engine="E4", level="exploration", technique="exhaustive enumeration of all 4096 mode values x 3 umasks on the real storage functions + mode/owner grid through generated configurations and full issuances",
                 text="All 4096 values of cert_file_mode (with a derived distinct pk_file_mode) x umask {000,022,077} x {certificate, key, account} through the real write path, stat() after creation; through TOML: option unset / each of 12 bits / 6 common values for both options, owner and group unset / by name / by number for certificate and key files, creation and rewrite under a changed configuration.",
                 note="Only the nine permission bits are judged (the kernel drops set-id/sticky on open/write). Ownership needs root (true in this sandbox; reported as unchecked otherwise).", ref="4/C13"),
